@@ -136,15 +136,16 @@ again (overwriting permitted) ends `ok` in the mirror state; and a destination f
 **not** the source's (which `C08_no_stamped_garbage` shows for every incomplete file) ends up holding
 exactly the source's bytes and time. -/
 theorem C08_recovery_fs {fs0 : FS} {r : FPath} {ld : List (FPath × Node)} {src : FPath → Option SEntry}
-    {ls : List (FPath × SEntry)} (hw : DestWF fs0 r ld) (hs : SrcWF src ls) :
+    {ls : List (FPath × SEntry)} {vis : FPath → Bool} (hw : DestWF vis fs0 r ld) (hs : SrcWF vis src ls)
+    (hsafe : ∀ p c n, (p, Node.folder) ∈ planDel src ld → fs0.get (r ++ (p ++ [c])) = some n → vis (p ++ [c]) = true) :
     ∃ fs', syncDest fs0 r src ls ld = .ok fs' ∧
-      (∀ p, p ≠ [] → MirrorAt fs0 fs' r p (src p)) ∧
-      ∀ p b m, p ≠ [] → src p = some (.file b m) →
+      (∀ p, p ≠ [] → vis p = true → MirrorAt fs0 fs' r p (src p)) ∧
+      ∀ p b m, p ≠ [] → vis p = true → src p = some (.file b m) →
         (∀ b', fs0.get (r ++ p) ≠ some (.file b' (.at m))) → fs'.get (r ++ p) = some (.file b (.at m)) := by
-  obtain ⟨fs', h1, -, -, hm⟩ := sync_mirror hw hs
+  obtain ⟨fs', h1, -, -, hm, -⟩ := sync_mirror hw hs hsafe
   refine ⟨fs', h1, hm, ?_⟩
-  intro p b m hp hsrc hne
-  have := hm p hp
+  intro p b m hp hv hsrc hne
+  have := hm p hp hv
   rw [hsrc] at this
   rcases this with h | ⟨b', h, -⟩
   · exact h
